@@ -330,6 +330,27 @@ Section Batch.
     - rewrite V1, U1. reflexivity.
   Qed.
 
+  Lemma nb_tell (s : st) x (y : Y num) : SInv s -> in_bounds x = true -> dget x (data s) = None ->
+    nb (tell s x y) = insert x (nb s).
+  Proof.
+    intros HI Hb Hd. unfold L1D.tell. rewrite Hd, Hb. cbn [negb].
+    set (s1 := L1D.mk (data _) (pend _) (insert x (nb _)) (insert x (nbc _)) (los _) (losc _)
+                      (bbx _) (bby _) (sx _) (sy _) (osy _) (mgrx _)).
+    cbn [data pend nb nbc los losc bbx bby sx sy osy mgrx] in s1.
+    set (s2 := L1D.update_scale sub ltb zero inf neg_inf is_nan s1 x y).
+    destruct (update_scale_frame add sub mul div ltb zero inf neg_inf is_nan is_inf round12 s1 x y)
+      as [_ [_ [U3 [_ [U5 U6]]]]]. fold s2 in U3, U5, U6.
+    assert (Hkl : ksorted (los s2)) by (rewrite U5; exact (s_los_sorted HI)).
+    assert (Hkc : ksorted (losc s2)) by (rewrite U6; exact (s_losc_sorted HI)).
+    destruct (@update_losses_true num add sub mul div ltb eqb zero one inf is_nan is_inf round12 L P OL s2 x Hkl Hkc)
+      as [_ [_ [V3 _]]].
+    set (s3 := L1D.update_losses sub mul div ltb eqb zero one inf L P s2 x true) in *.
+    destruct (ltb (mul (factor P) (osy s3)) (sy s3)).
+    - cbn [nb]. destruct (sweep_facts add sub mul div zero one is_nan is_inf round12 L P OL s3) as [_ [Hn' _]].
+      rewrite Hn', V3, U3. reflexivity.
+    - rewrite V3, U3. reflexivity.
+  Qed.
+
   Lemma dinv_tell (s : st) x (y : Y num) : SInv s -> in_bounds x = true -> DInv s -> DInv (tell s x y).
   Proof.
     intros HI Hb HD. unfold DInv. destruct (dget x (data s)) as [v|] eqn:Hd.
@@ -444,7 +465,16 @@ Section Batch.
 
   Lemma cond_fold_fields ti : forall (s : st),
     let r := fold_left (fun s iv => match lget iv (los s) with Some _ => update_interp s iv | None => s end) ti s in
-    data r = data s /\ bby r = bby s /\ sy r = sy s.
+    data r = data s /\ bby r = bby s /\ sy r = sy s /\ nb r = nb s /\ mgrx r = mgrx s.
+  Proof.
+    induction ti as [|[a b] ti IH]; intros s; cbn [fold_left]; cbn zeta; [tauto|].
+    destruct (lget (a, b) (los s)); [|apply IH].
+    destruct (IH (update_interp s (a, b))) as [H1 [H2 [H3 [H4 H5]]]]. cbn zeta in *. rewrite H1, H2, H3, H4, H5. cbn. tauto.
+  Qed.
+
+  Lemma cond_fold_scalars ti : forall (s : st),
+    let r := fold_left (fun s iv => match lget iv (los s) with Some _ => update_interp s iv | None => s end) ti s in
+    bbx r = bbx s /\ sx r = sx s /\ osy r = osy s.
   Proof.
     induction ti as [|[a b] ti IH]; intros s; cbn [fold_left]; cbn zeta; [tauto|].
     destruct (lget (a, b) (los s)); [|apply IH].
@@ -459,13 +489,15 @@ Section Batch.
     let mn := L1D.col_fold (L1D.np_min2 ltb is_nan) ys in
     let mx := L1D.col_fold (L1D.np_max2 ltb is_nan) ys in
     data r = data' /\ bby r = (L1D.wrap_like zero y0 mn, L1D.wrap_like zero y0 mx) /\
-    sy r = L1D.arr_max ltb zero is_nan (L1D.map2 sub mx mn).
+    sy r = L1D.arr_max ltb zero is_nan (L1D.map2 sub mx mn) /\
+    nb r = map fst data' /\ mgrx r = sx r.
   Proof.
     cbn zeta. unfold L1D.tell_many_batch.
     match goal with |- context [batch_combined ?a ?b [] []] => destruct (batch_combined a b [] []) as [lc ti] end.
     match goal with |- context [fold_left ?f ti ?s3] =>
-      destruct (cond_fold_fields ti s3) as [H1 [H2 H3]] end.
-    cbn zeta in H1, H2, H3. rewrite H1, H2, H3. cbn. tauto.
+      destruct (cond_fold_fields ti s3) as [H1 [H2 [H3 [H4 H5]]]];
+      destruct (cond_fold_scalars ti s3) as [_ [H6 _]] end.
+    cbn zeta in H1, H2, H3, H4, H5, H6. rewrite H1, H2, H3, H4, H5, H6. cbn. tauto.
   Qed.
 
   Lemma batch_binv (s : st) (xys : list (num * Y num)) : SInv s -> DInv s -> DScal (data s) ->
@@ -473,7 +505,7 @@ Section Batch.
   Proof.
     intros HI HD Hds Hf.
     destruct (batch_inv xys HI HD) as [R1 [R2 [R3 [R4 R5]]]].
-    destruct (batch_fields s xys) as [F1 [F2 F3]]. cbn zeta in *.
+    destruct (batch_fields s xys) as [F1 [F2 [F3 _]]]. cbn zeta in *.
     set (r := tell_many_batch s xys) in *.
     set (data' := fold_left (fun d xy => dset (fst xy) (snd xy) d) xys (data s)) in *.
     assert (Hds' : DScal data') by (apply dscal_fold; assumption).
@@ -570,7 +602,7 @@ Section Batch.
   Proof.
     intros HI HD Hds Hf.
     destruct (batch_inv xys HI HD) as [R1 [R2 [R3 [R4 R5]]]].
-    destruct (batch_fields s xys) as [F1 [F2 F3]]. cbn zeta in *.
+    destruct (batch_fields s xys) as [F1 [F2 [F3 _]]]. cbn zeta in *.
     set (r := tell_many_batch s xys) in *.
     set (data' := fold_left (fun d xy => dset (fst xy) (snd xy) d) xys (data s)) in *.
     assert (Hds' : DVec k data') by (apply dvec_fold; assumption).
